@@ -71,6 +71,7 @@ type Model struct {
 	deny    map[string]bool
 	// Unsure is set when an observation made the model lose track (lost response etc.).
 	reqs map[[12]byte][]*reqInfo
+	cur  *Step
 }
 
 type reqInfo struct {
